@@ -89,7 +89,7 @@ def probe_event(cls_name: str, d: Path, name: str, km, tk, what: str) -> Dict[st
     ok, vw, committed, exc = try_open(CLS[cls_name], files, km, tk)
     return {"op": "probe", "what": what, "cls": cls_name, "ok": ok, "exc": exc, "disk": disk, "mfd": mfd,
             "nb": nb, "h": dict(CLOSED), "vw": vw, "timeout": False,
-            "a": {"op": "probe"}, "merged_vw": "", "meta_before": "", "meta_after": "", "chain": [], "listed": [], "all_records": [], "found": []}
+            "a": {"op": "probe"}, "merged_vw": "", "meta_before": "", "meta_after": "", "chain": [], "listed": [], "all_records": [], "found": [], "hmis": []}
 
 
 def rewrite_ub(path: Path, edit):
@@ -308,7 +308,7 @@ def crash_event(cls_name, d: Path, name: str, km, tk, frozen: Dict[str, str], cv
             "full_ok": full_ok, "full_vw": full_vw, "full_committed": full_comm, "full_exc": full_exc,
             "changed": changed, "full_sub_vw": sub_vw, "cvw": cvw, "nvw": nvw, "cvws": cvws or [cvw],
             "ok": True, "exc": "", "disk": disk, "mfd": mfd, "nb": nb, "h": dict(CLOSED), "vw": "",
-            "timeout": False, "a": {"op": "crash_probe"}, "merged_vw": "", "meta_before": "", "meta_after": "", "chain": [], "listed": [], "all_records": [], "found": []}
+            "timeout": False, "a": {"op": "crash_probe"}, "merged_vw": "", "meta_before": "", "meta_after": "", "chain": [], "listed": [], "all_records": [], "found": [], "hmis": []}
 
 
 def file_digests(d: Path) -> Dict[str, str]:
